@@ -60,6 +60,7 @@ type c09Verdict struct {
 	Ownership    string            `json:"ownership"`
 	CrossDevice  bool              `json:"cross_device"`
 	ChangedDisk  bool              `json:"changed_disk"`
+	Preempted    bool              `json:"copy_preempted"`
 }
 
 // newNode describes the New side of a planned change before it becomes a core.Entry.
@@ -87,6 +88,7 @@ type c09Plan struct {
 	fileMode   filesystem.Mode
 	dirMode    filesystem.Mode
 	roles      map[string]string
+	bigPath    string // path of the large file of the bigcopy variants
 }
 
 func c09Rand(seed int64, plan int) *rand.Rand {
@@ -103,7 +105,11 @@ func c09Content(r *rand.Rand) []byte {
 }
 
 // c09MakePlan builds tree and plan as a pure function of (seed, plan index).
-func c09MakePlan(seed int64, planIndex int, big bool) *c09Plan {
+// c09BigFileSize exceeds the 32 MiB (1024 writes x 32 KiB) after which the cross-device copy
+// of findAndMoveStagedFileIntoPlace checks for preemption.
+const c09BigFileSize = 40 << 20
+
+func c09MakePlan(seed int64, planIndex int, variant string) *c09Plan {
 	r := c09Rand(seed, planIndex)
 	p := &c09Plan{tree: fsx.Tree{}, roles: map[string]string{}}
 	p.tree["pa"] = &fsx.Node{Kind: fsx.KDir}
@@ -140,8 +146,20 @@ func c09MakePlan(seed int64, planIndex int, big bool) *c09Plan {
 			break
 		}
 	}
-	if big {
+	switch variant {
+	case "bigrm":
 		kinds = append([]string{"bigrm"}, kinds...)
+	case "bigcopy-create":
+		kinds = append([]string{"bigcreate"}, kinds...)
+		p.shmStaging = true
+	case "bigcopy-swap":
+		kinds = append([]string{"bigswap"}, kinds...)
+		p.shmStaging = true
+	}
+	bigContent := func() []byte {
+		out := make([]byte, c09BigFileSize)
+		copy(out, fsx.UniqueToken(r, 64))
+		return out
 	}
 	file := func(name string, exec bool) *newNode {
 		p.roles[name] = "new-file"
@@ -185,6 +203,16 @@ func c09MakePlan(seed int64, planIndex int, big bool) *c09Plan {
 					p.tree[path+"/"+name] = &fsx.Node{Kind: fsx.KFile, Content: []byte(name), Mode: 0o644}
 				}
 			}
+		case "bigcreate":
+			ch.new = file(base, false)
+			ch.new.content = bigContent()
+			p.bigPath = path
+		case "bigswap":
+			p.tree[path] = &fsx.Node{Kind: fsx.KFile, Content: c09Content(r), Mode: 0o644}
+			ch.new = file(base, false)
+			ch.new.content = bigContent()
+			p.roles[base] = "swap-file"
+			p.bigPath = path
 		case "swap":
 			x := r.Intn(2) == 0
 			p.tree[path] = &fsx.Node{Kind: fsx.KFile, Content: c09Content(r), Mode: mode(x)}
@@ -248,6 +276,9 @@ type c09Provider struct {
 	mode   string
 	k      int
 	cancel func()
+	// bigPath: in mode cancel-copy the transition is cancelled from inside the Provide call for
+	// this path, i.e. after Transition's own per-change check and before the cross-device copy.
+	bigPath string
 }
 
 func (p *c09Provider) Provide(path string, digest []byte) (string, error) {
@@ -256,7 +287,10 @@ func (p *c09Provider) Provide(path string, digest []byte) (string, error) {
 	if !ok {
 		sp = filepath.Join(p.dir, "never-staged-"+hexd(digest))
 	}
-	if p.calls == p.k {
+	if p.mode == "cancel-copy" && path == p.bigPath {
+		p.cancel()
+	}
+	if p.calls == p.k && p.mode != "cancel-copy" {
 		switch p.mode {
 		case "provider-error":
 			return "", errors.New("verif: provider failure")
@@ -295,7 +329,14 @@ func c09ChildMain() {
 		v.Stage, v.Err = stage, err.Error()
 		c09Emit(v)
 	}
-	plan := c09MakePlan(spec.Seed, spec.Plan, spec.Mode == "cancel-timer")
+	variant := ""
+	switch spec.Mode {
+	case "cancel-timer":
+		variant = "bigrm"
+	case "cancel-copy":
+		variant = []string{"bigcopy-create", "bigcopy-swap"}[spec.K%2]
+	}
+	plan := c09MakePlan(spec.Seed, spec.Plan, variant)
 	v.Roles = plan.roles
 	root := filepath.Join(spec.Dir, "root")
 	staging := filepath.Join(spec.Dir, "staging")
@@ -324,7 +365,7 @@ func c09ChildMain() {
 	}
 
 	// Build the changes and stage what they need.
-	provider := &c09Provider{files: map[string]string{}, dir: staging, mode: spec.Mode, k: spec.K}
+	provider := &c09Provider{files: map[string]string{}, dir: staging, mode: spec.Mode, k: spec.K, bigPath: plan.bigPath}
 	type stagedFile struct {
 		key     string
 		content []byte
@@ -437,6 +478,13 @@ func c09ChildMain() {
 		}
 		if !okOld {
 			v.ChangedDisk = true
+		}
+		if (plan.changes[i].kind == "bigcreate" || plan.changes[i].kind == "bigswap") && out.ResultIs != "new" {
+			for _, p := range problems {
+				if p.Path == c.Path && strings.Contains(p.Error, "transition cancelled") {
+					v.Preempted = true
+				}
+			}
 		}
 		if plan.changes[i].kind == "bigrm" {
 			out.Old, out.Result = "(big directory)", fmt.Sprintf("(%d entries remain)", results[i].Count())
